@@ -79,6 +79,10 @@ pub fn enc_value(v: &Value) -> String {
             m.iter().map(|(k, x)| format!(" ({} {})", hex(k), enc_value(x))).collect::<String>()
         ),
         Value::None => "(none)".into(),
+        // a variant added to the public enum must not break the harness build (an additive API change is not a
+        // violation by itself); it shows as a value the model does not know
+        #[allow(unreachable_patterns)]
+        other => format!("(unknown-value {})", hex(&format!("{:?}", other))),
     }
 }
 
@@ -190,6 +194,8 @@ pub fn enc_expr(e: &Expr) -> String {
         Expr::Hour(x) => un("hour", x),
         Expr::Minute(x) => un("minute", x),
         Expr::Second(x) => un("second", x),
+        #[allow(unreachable_patterns)]
+        other => format!("(unknown-expr {})", hex(&format!("{:?}", other))),
     }
 }
 
@@ -304,6 +310,8 @@ pub fn enc_err(e: &reval::Error) -> String {
         DuplicateFunctionName(n) => format!("(err dupfn {})", hex(n)),
         DuplicateRuleName(n) => format!("(err duprule {})", hex(n)),
         UnknownIndex(n) => format!("(err unknownindex {})", hex(n)),
+        #[allow(unreachable_patterns)]
+        other => format!("(err other {})", hex(&other.to_string())),
     }
 }
 
